@@ -58,6 +58,7 @@ def is_stringish(t):
 class DotModel(GraphModel):
     """GraphModel + the string pieces the emitter appends to its output, whatever the idiom
     (`out += piece`, `chunks.append(piece)`; str.format or f-strings)"""
+    keep_type_facts = True
 
     def on_call(self, ip, node, fterm, args, kws, st, fr):
         if fterm[0] == 'attr' and fterm[1][0] in ('elem', 'mcall', 'last') and fterm[2] != 'format':
@@ -69,6 +70,13 @@ class DotModel(GraphModel):
             # methods of other objects (the jobs being drawn) stay symbolic
             return [(st, T.mk(('mcall', fterm[1], fterm[2], args, kws)))]
         f = node.func
+        if fterm[0] == 'attr' and fterm[2] == 'join' and len(args) == 1 and args[0][0] == 'gen':
+            # "".join(self._chunks(...)): the pieces are what the generator yields, in order
+            from ..flow import Out
+            o = Out()
+            done = ip.run_generator(args[0], st, fr, o, node, lambda y, val: [self.emit(ip, node, val, y, fr)])
+            if done is not None:
+                return [(y, T.mk(('out', 'joined'))) for y in done]
         if isinstance(f, ast.Attribute) and isinstance(f.value, ast.Name) and f.attr in ('append', 'extend') \
                 and len(args) == 1 and st.var(fr.fid, f.value.id) is not None and f.value.id != 'self':
             cur = st.var(fr.fid, f.value.id)
@@ -563,12 +571,23 @@ def numbering(ctx, rep, r3, em=None):
             own = [n for n in calls if n.func.attr == hook and dotted(n.func.value) in p.classes]
             deep = [n for n in calls for c in callees_by_name(p, f, n) if c.qualname in numbering
                     and c.cls is not None and r.sched in c.cls.mro and c is not f and n not in own]
+            fsrc = f
+            if not own and len(deep) == 1:
+                # the override hands over to a helper of the scheduler side that does both steps
+                gs = [c for c in callees_by_name(p, f, deep[0]) if c.qualname in numbering]
+                if len(gs) == 1:
+                    g2 = gs[0]
+                    fsrc = g2
+                    calls2 = [n for n in walk_local(g2.node) if isinstance(n, ast.Call) and isinstance(n.func, ast.Attribute)]
+                    own = [n for n in calls2 if n.func.attr == hook and dotted(n.func.value) in p.classes]
+                    deep = [n for n in calls2 for c in callees_by_name(p, g2, n) if c.qualname in numbering
+                            and c.cls is not None and r.sched in c.cls.mro and c is not g2 and n not in own]
             rep.check(bool(own) and bool(deep), r3, "%s.%s takes one id for the cluster and numbers its members"
                       % (cls.name, hook), f.qualname,
                       "own id: %s, members: %s" % ([src(n)[:50] for n in own], [src(n)[:50] for n in deep]),
                       "ids are not unique tree-wide")
-            rets = [n for n in walk_local(f.node) if isinstance(n, ast.Return)]
-            via_local = {t.id for n in walk_local(f.node) if isinstance(n, ast.Assign) and n.value in deep
+            rets = [n for n in walk_local(fsrc.node) if isinstance(n, ast.Return)]
+            via_local = {t.id for n in walk_local(fsrc.node) if isinstance(n, ast.Assign) and n.value in deep
                          for t in n.targets if isinstance(t, ast.Name)}
             rep.check(any((isinstance(x.value, ast.Call) and x.value in deep) or
                           (isinstance(x.value, ast.Name) and x.value.id in via_local) for x in rets), r3,
